@@ -6,7 +6,7 @@ from ..core import Violation, Discard
 
 ID = "C14"
 LEVEL = "exploration"
-RULE = ("Hypothesis composite histories of 5-13 simulations on one instance (whole history shrinks as one value): definitions of all "
+RULE = ("Hypothesis composite histories of 6-14 simulations on one instance (whole history shrinks as one value): definitions of all "
         "11 reactant kinds (numbers, ranges n-m, absent number, redefinition), explicit and implicit batch reactions with USE/SAVE "
         "(single numbers and ranges), COPY kind / COPY cell (ranges, missing source, hidden negative numbers), DELETE (lists, ranges, "
         "-cells, -all), one-field *_MODIFY of 10 kinds, X_MIX keywords, RUN_CELLS, USE of a missing number, SAVE without reaction, "
@@ -31,8 +31,8 @@ LEVEL_TEXT = ("Exploration: thousands of generated operation histories; after ea
               "inventory of the current entries, RUN_CELLS must equal USE+SAVE on twin instances restored from the RAW text, and "
               "the component list must cover every element of every entry.")
 FLOORS = {"quick": 200, "thorough": 2000}
-SHARDS = {"quick": 8, "thorough": 16}
-BUDGET = {"quick": 110, "thorough": 600, "replay": 1}
+SHARDS = {"quick": 4, "thorough": 4}   # DEV: machine is shared; final value 8/16
+BUDGET = {"quick": 300, "thorough": 2500, "replay": 1}
 
 DB = "phreeqc.dat"
 OBSERVE = "DUMP\n -all\nEND\n"
@@ -119,6 +119,20 @@ class Obs(object):
         pk = {k for k in self.parsed if k[0] != "USE"}
         if pk != set(self.raw):
             raise Violation("observe", "the two readings of the dump disagree on the key set: %r" % sorted(pk ^ set(self.raw)))
+        # contents of hidden (negative-numbered) entries as far as the model can name them: filled by check_case
+        self.raw_all = dict(self.raw)
+        self.parsed_all = dict(self.parsed)
+
+    def carry_hidden(self, plan, prev):
+        """a hidden entry is never dumped; its content is known when the model says it is a copy of something observed"""
+        for key, cid in plan.get("hidden", {}).items():
+            cid = tuple(cid)
+            src = None
+            if cid[0] == "P":
+                src = (cid[1], cid[2])
+            if src is not None and src in prev.raw_all:
+                self.raw_all[key] = prev.raw_all[src]
+                self.parsed_all[key] = prev.parsed_all[src]
 
 
 def fresh_instance():
@@ -151,7 +165,13 @@ def check_store(i, plan, prev, cur):
         desc, body = cur.raw[key]
         if cid[0] == "P":
             k0 = (cid[1], cid[2])
-            d0, b0 = prev.raw[k0]
+            if k0 not in prev.raw_all:
+                continue                      # copy of a hidden entry whose content was never observable
+            d0, b0 = prev.raw_all[k0]
+            if k0[0] == "SOLUTION" and k0[1] in plan.get("eq_solutions", ()):
+                # trap: the initial exchange/surface/gas calculation writes the freshly calculated viscosity back into the
+                # solution named by -equilibrate (kinetics.cpp set_and_run -> Set_viscosity); derived quantity, not compared
+                b0, body = strip_viscosity(b0), strip_viscosity(body)
             if body != b0:
                 what = "untouched entry changed" if k0 == key else "copy of %s %d differs from its source" % k0
                 raise Violation("untouched" if k0 == key else "copy_identical",
@@ -170,6 +190,10 @@ def check_store(i, plan, prev, cur):
                     i, keys[0][0], keys[0][1], k[0], k[1], t.split("#")[0], first_diff(b0, cur.raw[k][1])))
 
 
+def strip_viscosity(body):
+    return [l for l in body if l.split()[:1] not in (["-viscosity"], ["-viscos_0"])]
+
+
 def first_diff(a, b):
     for x, y in zip(a, b):
         if x != y:
@@ -185,9 +209,11 @@ def check_modified(i, key, cid, prev, cur):
     md = {"kind": k0[0], "n": k0[1], "field": cid[2], "idx": cid[3], "value": cid[4]}
     if len(cid) > 5 and cid[5]:
         md["force_comp"] = cid[5]
-    mp = G.mod_plan(md, prev.parsed[k0])
+    if k0 not in prev.parsed_all:
+        return
+    mp = G.mod_plan(md, prev.parsed_all[k0])
     path, allowed, value = mp["path"], mp["allowed"], mp["value"]
-    diffs = rp.diff(prev.parsed[k0], cur.parsed[key])
+    diffs = rp.diff(prev.parsed_all[k0], cur.parsed[key])
     for p, a, b in diffs:
         if not any(p == q or p.startswith(q + "/") or p.startswith(q + "[") for q in allowed):
             raise Violation("modify_only_named", "simulation %d: %s_MODIFY %d -%s changed %s: %r -> %r" % (i, k0[0], k0[1], cid[2], p, a, b))
@@ -218,7 +244,9 @@ def check_mixlin(i, c, prev, cur):
         k0 = resolve_prev(tuple(cid))
         if k0 is None:
             return False          # a source created in the same simulation: its content is not observable before the mix
-        els, z, _ = rp.entity_inventory(prev.parsed[k0], phases)
+        if k0 not in prev.parsed_all:
+            return False
+        els, z, _ = rp.entity_inventory(prev.parsed_all[k0], phases)
         for e, v in els.items():
             exp[e] = exp.get(e, 0.0) + f * v
             scale[e] = scale.get(e, 0.0) + abs(f * v)
@@ -234,15 +262,13 @@ def check_mixlin(i, c, prev, cur):
 
 def check_mixcons(i, c, prev, cur):
     """USE mix n (nothing else) + SAVE solution: the saved solution holds the mixture of the CURRENT solutions"""
-    k0 = ("MIX", c["mix"])
-    if k0 not in prev.parsed:
-        return False
     phases = U.phase_formulas(DB)
     exp, scale = {}, {}
-    for s, f in rp.mix_fractions(prev.parsed[k0]).items():
-        if ("SOLUTION", s) not in prev.parsed:
+    for s, f, cid in c["parts"]:
+        k0 = resolve_prev(tuple(cid))
+        if k0 is None or k0 not in prev.parsed_all:
             return False
-        els = rp.entity_inventory(prev.parsed[("SOLUTION", s)], phases)[0]
+        els = rp.entity_inventory(prev.parsed_all[k0], phases)[0]
         for e, v in els.items():
             exp[e] = exp.get(e, 0.0) + f * v
             scale[e] = scale.get(e, 0.0) + abs(f * v)
@@ -329,6 +355,7 @@ def check_case(case, ctx):
             rc = I.run_string(text)
             if plan["expect_error"]:
                 cur = Obs(I)
+                cur.carry_hidden(plan, prev)
                 check_store(i, plan, prev, cur)
                 classes.add("use_missing:" + ("error" if rc != 0 else "no_error"))
             else:
@@ -338,8 +365,14 @@ def check_case(case, ctx):
                     ctx.event("error:" + (I.errors().strip().split("\n")[0][:60] or "?"))
                     break
                 cur = Obs(I)
+                cur.carry_hidden(plan, prev)
                 check_store(i, plan, prev, cur)
                 for c in plan["checks"]:
+                    if "tag" in c:
+                        # the entry written by this request may have been overwritten or deleted later in the same simulation
+                        tk = (c["kind"] if c["c"] == "mixlin" else "SOLUTION", c["a"])
+                        if tuple(plan["expect"].get(tk, ())) != ("N", c["tag"]):
+                            continue
                     if c["c"] == "mixlin":
                         if check_mixlin(i, c, prev, cur):
                             classes.add("mixlin_checked")
